@@ -3,6 +3,7 @@ import DoltVerif.Lemmas.Txn
 namespace DoltVerif.Txn
 
 @[simp] theorem setSess_shared (w : World) (i : Nat) (s : Sess) : (setSess w i s).shared = w.shared := rfl
+@[simp] theorem setSess_other_db (w : World) (i : Nat) (s : Sess) : (setSess w i s).other = w.other := rfl
 @[simp] theorem setSess_commits (w : World) (i : Nat) (s : Sess) : (setSess w i s).commits = w.commits := rfl
 @[simp] theorem setSess_same (w : World) (i : Nat) (s : Sess) : (setSess w i s).sess i = s := by simp [setSess]
 theorem setSess_other (w : World) (i j : Nat) (s : Sess) (h : j ≠ i) : (setSess w i s).sess j = w.sess j := by
@@ -89,6 +90,20 @@ theorem step_other (w : World) (i j : Nat) (st : Stmt) (h : j ≠ i) : (step w i
     · split
       · simp only; rw [endTx_other _ _ _ _ h]; simp [ensureTx_other _ _ _ h]
       · simp only; rw [endTx_other _ _ _ _ h, ensureTx_other _ _ _ h]
+  | readO =>
+    simp only [step]
+    rw [endStmt_other _ _ _ h, ensureTx_other _ _ _ h]
+  | writeO op =>
+    simp only [step]
+    split
+    · split
+      · split
+        · rename_i o _
+          have := commitTx_other { ensureTx w i with other := o } i j true h
+          simp only at this ⊢; rw [this]; exact ensureTx_other _ _ _ h
+        · simp only; rw [endTx_other _ _ _ _ h, ensureTx_other _ _ _ h]
+      · simp only; rw [endTx_other _ _ _ _ h, ensureTx_other _ _ _ h]
+    · simp only; rw [ensureTx_other _ _ _ h]
   | setAuto b =>
     simp only [step]
     split
